@@ -1,3 +1,4 @@
+import Cactus.Lemmas.Once
 import Cactus.Lemmas.Contract
 import Cactus.Lemmas.Final
 import Cactus.Lemmas.Orphan
@@ -128,5 +129,20 @@ theorem C01_internal_steps_keep_contract (s : State) (hI : s.Inv) (hC : s.Script
 
 /-- non-vacuity: the ring-with-tail history is contract-respecting -/
 example : ∀ oh ∈ ringTailHistory, oh.1.respects := by decide
+
+
+/-- …and the destructor of a reachable object's value has not run: its `vid` does not occur among
+the `destroyed` events of the log (no operation so far ran its destructor) -/
+theorem C01_destructor_has_not_run {s : State} (h : ReachableP s) (he : s.err = none)
+    {o : Nat} (hr : s.Reach o) :
+    ∃ ob v, s.heap[o]? = some ob ∧ ob.value = some v ∧ v.vid ∉ s.destroyedVids := by
+  obtain ⟨_, ob, v, hg, _, hv⟩ := C01_no_premature_destruction h he hr
+  refine ⟨ob, v, hg, hv, ?_⟩
+  apply reachable_stored_not_destroyed h.reachable v
+  unfold State.allVals
+  apply List.mem_append_left
+  apply List.mem_append_left
+  rw [List.mem_filterMap]
+  exact ⟨ob, List.mem_of_getElem? hg, hv⟩
 
 end Cactus
